@@ -8,8 +8,8 @@ OUT=$S/result_$X.txt
 cd $WT && git checkout -q -- . && git clean -fdq
 echo "== demo on clean tree"; /venv/bin/python $S/demo_$X.py >/dev/null 2>&1; echo "exit $?"
 git apply $S/patch_$X.diff || { echo "PATCH DOES NOT APPLY"; exit 3; }
-echo "== tests with patch"; /venv/bin/python -m pytest -q -p no:cacheprovider --timeout=900 tests 2>&1 | tail -1
-git checkout -q -- tests
+if [ -z "$SKIPTESTS" ]; then echo "== tests with patch"; /venv/bin/python -m pytest -q -p no:cacheprovider --timeout=900 tests 2>&1 | tail -1
+git checkout -q -- tests; fi
 echo "== demo with patch"; /venv/bin/python $S/demo_$X.py 2>&1 | tail -3; echo "exit ${PIPESTATUS[0]}"
 for C in $ID "$@"; do
   echo "== check $C with patch"; (cd /verif && REPO_ROOT=$WT timeout 3000 bin/check $C --tier ${TIER:-quick} 2>&1 | grep -E "^(VIOLATION|KNOWN|SUMMARY|HARNESS|  what)" | head -12; echo "exit ${PIPESTATUS[0]}")
